@@ -31,14 +31,15 @@ def _elems(n, variant):
     """concrete start content; variant 1 has equal neighbours, variant 2 nested containers"""
     base = [10, 11, 12, 13, 14, 15][:n]
     if variant == 1 and n >= 2:
-        base = [10, 10, 12, 12, 10, 10][:n]
+        # equal neighbours as DISTINCT node objects (a plain [10, 10] would be one shared node through the ids memo)
+        base = [ConfigNode(v) for v in [10, 10, 12, 12, 10, 10][:n]]
     if variant == 2:
         base = [[1, 2], {'k': 3}, 12, [[4]], {'m': {'n': 5}}, 15][:n]
     return base
 
 
 def _value(vk):
-    return [99, [7, 8], {'k': 1}, 0][vk]
+    return [99, [7, 8], {'k': 1}, 10][vk]      # 10 equals an existing element: overwrite-with-equal-value
 
 
 def _plain(x):
